@@ -299,6 +299,11 @@ _RE_PROP = re.compile(r'Error: Action property (\S+) is violated|Error: Temporal
 _RE_COV = re.compile(r'^<(\w+) line \d+, col \d+ to line \d+, col \d+ of module (\w+)(?: \([\d ]+\))?>: (\d+):(\d+)', re.M)
 
 
+class TLCEvaluationError(MachineryError):
+    """TLC could not evaluate an expression of the specification (as opposed to a parse error,
+    a crash or a timeout); .result is the TLCResult with the complete output"""
+
+
 def run_tlc(module, cfg_text, *, workers=None, timeout=3600, simulate=None, depth=None,
             env=None, coverage=False, tlc_seed=None, dfs=False, allow_violation=True,
             check_deadlock=False, extra=(), cwd=SPEC_DIR, jvm=()):
@@ -321,6 +326,9 @@ def run_tlc(module, cfg_text, *, workers=None, timeout=3600, simulate=None, dept
                    '-Xmx8g', '-Xss128m']
         if dfs:
             cmd.append('-Dtlc2.tool.queue.IStateQueue=StateDeque')
+        jtmp = os.path.join(d, 'jtmp')      # SANY unpacks library modules into java.io.tmpdir
+        os.makedirs(jtmp, exist_ok=True)
+        cmd.append('-Djava.io.tmpdir=' + jtmp)
         cmd += list(jvm)
         cmd += ['-cp', TLA_CP, 'tlc2.TLC', '-workers', str(workers), '-metadir',
                 os.path.join(d, 'meta'), '-noGenerateSpecTE', '-config', cfg]
@@ -381,7 +389,12 @@ def _parse_tlc(res, allow_violation=True):
         res.violated = 'deadlock'
     elif 'Error:' in out or 'Exception' in out and 'Finished in' not in out:
         i = out.find('Error:')
-        raise MachineryError('TLC failed: %s\n--- cmd: %s' % (out[max(0, i - 200):i + 1500], res.cmd))
+        msg = 'TLC failed: %s\n--- cmd: %s' % (out[max(0, i - 200):i + 1500], res.cmd)
+        if 'The error occurred when TLC was evaluating' in out or 'Attempted to' in out:
+            e = TLCEvaluationError(msg)
+            e.result = res
+            raise e
+        raise MachineryError(msg)
     if res.violated is None:
         if 'Model checking completed. No error has been found.' in out or \
                 'Finished in' in out or 'simulation' in out.lower():
@@ -426,24 +439,57 @@ def validate_traces(module, traces, *, cfg_text=None, workers=None, timeout=3600
     workers = workers or NCPU
     chunks = [(i, traces[i:i + chunk]) for i in range(0, len(traces), chunk)]
 
-    def one(job):
-        base, part = job
+    def run_part(part):
         with scratch('rxsci-verif.tr.') as d:
             tf = os.path.join(d, 'traces.json')
             with open(tf, 'w') as f:
                 json.dump(part, f)
-            r = run_tlc(module, cfg_text or cfg(spec='TraceSpec'), workers=1, timeout=timeout, env={'TRACE_FILE': tf},
-                        allow_violation=False, jvm=jvm)
+            try:
+                r = run_tlc(module, cfg_text or cfg(spec='TraceSpec'), workers=1, timeout=timeout,
+                            env={'TRACE_FILE': tf}, allow_violation=False, jvm=jvm)
+                return r, None
+            except TLCEvaluationError as e:
+                return e.result, e
+
+    def one(job):
+        """A chunk of traces.  When TLC cannot *evaluate* the specification on one trace (the
+        recorded values are of a kind no operator of the specification produces or accepts:
+        e.g. None where a number is folded), that trace gets the verdict
+        ('REJECT', 0, 'values-outside-the-specification') and the rest of the chunk is validated
+        again without it: a verdict for every trace, never a crash for one of them."""
+        base, part = job
         got = {}
-        for v in extract_printed(r.stdout, 'VERDICT'):
-            tid = v[1]
-            if tid in got:
-                raise MachineryError('two verdicts for trace %d' % tid)
-            got[tid] = tuple(v[2:])
+        todo = list(range(len(part)))          # indices (in part) still without a verdict
+        agg = None
+        for _round in range(200):
+            r, err = run_part([part[i] for i in todo])
+            agg = r if agg is None else agg
+            if agg is not r:
+                agg.distinct += r.distinct
+                agg.generated += r.generated
+                agg.wall += r.wall
+            seen = {}
+            for v in extract_printed(r.stdout, 'VERDICT'):
+                tid = v[1]
+                if tid in seen:
+                    raise MachineryError('two verdicts for trace %d' % tid)
+                seen[tid] = tuple(v[2:])
+            for tid, v in seen.items():
+                got[todo[tid - 1] + 1] = v
+            if err is None:
+                break
+            m = re.search(r'/\\ tid = (\d+)', r.stdout[r.stdout.find('Error:'):])
+            if not m or int(m.group(1)) in seen or not (1 <= int(m.group(1)) <= len(todo)):
+                raise MachineryError(str(err))
+            bad = int(m.group(1))
+            got[todo[bad - 1] + 1] = ('REJECT', 0, 'values-outside-the-specification')
+            todo = [i for j, i in enumerate(todo, start=1) if j != bad and (i + 1) not in got]
+            if not todo:
+                break
         if sorted(got) != list(range(1, len(part) + 1)):
             raise MachineryError('missing verdicts from %s: got %d of %d\n%s'
-                                 % (module, len(got), len(part), r.stdout[-3000:]))
-        return base, got, r
+                                 % (module, len(got), len(part), agg.stdout[-3000:]))
+        return base, got, agg
 
     import concurrent.futures as cf
     with cf.ThreadPoolExecutor(max_workers=max(1, min(len(chunks), workers))) as ex:
